@@ -288,7 +288,8 @@ def scalar_hook(extra=None, d=None, ell=None):
             # a method the class inherits from scipy's helper (trusted library): the diagonal Pade approximant of that order
             o, N = pos[0], int(pos[1][4:])
             return Native("scipy:" + pos[1], lambda it_, p_, k_, nd_: _scipy_uv(N, need(o.attrs.get("A"), "helper.A")))
-        if name == "mf._ell" and n == 2:
+        if name == "mf._ell" and n + len(kw) == 2 and set(kw) <= {"A", "m"}:
+            pos = list(pos) + [kw[k_] for k_ in ("A", "m") if k_ in kw]          # scipy: _ell(A, m)
             ks = [int(I.cval(p_)) for p_ in pos if I.is_const(p_) and I.cval(p_).denominator == 1]
             if ell is not None and len(ks) == 1 and ks[0] != 13:
                 return F.const(ell.get(ks[0], 0))
@@ -433,6 +434,18 @@ def _symbols(v):
     return out
 
 
+def _not_a_formula(v):
+    """the first object / function / class / iterator / dict found where the rules expect formulas, else None"""
+    if isinstance(v, (I.Obj, I.FuncV, I.ClassV, I.IterV, I.DictV, I.Native, I.RangeV, I.RepeatV)):
+        return v
+    if isinstance(v, (tuple, list)):
+        for x in v:
+            r = _not_a_formula(x)
+            if r is not None:
+                return r
+    return None
+
+
 def _find_crash(v):
     if I.is_crash(v):
         return v
@@ -457,6 +470,10 @@ def verdict(ctx, ok, title, where, detail=None, values=()):
     if any(_has_unknown(v) for v in values):
         bad = next(v for v in values if _has_unknown(v))
         ctx.error(title, where, f"could not evaluate: {bad!r}"[:400])
+        return False
+    odd = _not_a_formula(values)
+    if odd is not None:
+        ctx.error(title, where, f"a value the rule cannot compare (an object / function / iterator where a matrix or number is expected): {odd!r}"[:400])
         return False
     um = _unmodelled([v for v in values if isinstance(v, (F.Rat, tuple))])
     if um:
@@ -567,36 +584,53 @@ def r1_pade_tables(ctx):
         v = it.attr(H, f"A{k}", cnode)
         ok = isinstance(v, F.Rat) and v.equals(x ** k)
         verdict(ctx, ok, f"{cls}.A{k} is the {k}-th power of A", cnode, repr(v), [v])
-    for N, name in ((3, "pade3_i"), (5, "pade5_i"), (7, "pade7_i"), (9, "pade9_i")):
-        fn = ctx.src.func(EXPM, f"{cls}.{name}")
-        ret = _table(ctx, f"{cls}.{name}", fn, it.method(H, name, [h]), 4)
-        if ret is None:
+    # the tables, evaluated the way expmint reaches them (whatever the table methods are called, however they take their arguments and hand
+    # back their results): on the route of order m the exponential is solved from (U, V) and the integral from (P, Q); the helper works on
+    # A h, so x -> x / h gives the tables as functions of A
+    efn = ctx.src.func(EXPM, "expmint")
+    for N in (3, 5, 7, 9):
+        r = Run(ctx, "expmint", THETA[N] * (1 - EPS), geti2=False)
+        tag = f"expmint (route of order {N})"
+        if _aborted(ctx, f"{tag}: the tables can be evaluated", efn, r.ret):
             continue
-        U, V, P, Q = ret
-        if N in (3, 5):
-            _check_exp(ctx, f"{cls}.{name}", fn, U, V, N)
-        _check_int(ctx, f"{cls}.{name}", fn, P, Q, N, 1, h)
-    # pade13 with scaling: B = A 2^-s, h -> h 2^-s   (first parameter: number of squarings, second: the step)
-    fn = ctx.src.func(EXPM, f"{cls}.pade13_scaled_i")
-    ret = _table(ctx, f"{cls}.pade13_scaled_i", fn, it.method(H, "pade13_scaled_i", [F.sym("s"), h]), 4)
-    if ret is not None:
-        U, V, P, Q = ret
-        sig = F.sym("2^s")
+        lv = r.leaves()
+        if r.order is None or not lv:
+            ctx.error(f"{tag}: tables", efn, f"no exponential / integral solve reached: {r.ret!r}"[:300])
+            continue
         try:
-            # substitute x -> y * 2^s : everything must become a function of y = x 2^-s (and h 2^-s) only
-            sub = {"x": x * sig}
-            U2, V2, P2, Q2 = (need(t).subs(sub) for t in (U, V, P, Q))
-            for nm, t in (("U", U2), ("V", V2), ("Q", Q2)):
-                ok = not t.depends_on("2^s") and not t.depends_on("s")
-                ctx.check(ok, f"{cls}.pade13_scaled_i: {nm} is a function of A*2^-s only (every B_k carries 2^(-k s))", fn,
-                          None if ok else repr(t)[:300])
-            _check_exp(ctx, f"{cls}.pade13_scaled_i", fn, U2, V2, 13)
-            Pn = P2 * sig  # P carries h 2^-s
-            ok = not Pn.depends_on("2^s") and not Pn.depends_on("s")
-            ctx.check(ok, f"{cls}.pade13_scaled_i: P is (h 2^-s) times a function of A*2^-s", fn, None if ok else repr(Pn)[:300])
-            _check_int(ctx, f"{cls}.pade13_scaled_i", fn, Pn, Q2, 13, 1, h)
+            sub = {"x": x / h}
+            U, V = (need(to_rat(t)).subs(sub) for t in r.pq.pos[:2])
+            P, Q = (need(to_rat(t)).subs(sub) for t in (lv[0].pos[1], lv[0].pos[0]))
         except Unsupported as e:
-            ctx.error(f"{cls}.pade13_scaled_i", fn, str(e))
+            ctx.error(f"{tag}: tables", efn, str(e)[:300])
+            continue
+        if N in (3, 5):
+            _check_exp(ctx, f"{tag}: exp table", r.pq.node, U, V, r.order)
+        _check_int(ctx, f"{tag}: integral table", lv[0].node, P, Q, r.order, 1, h)
+    # order 13 with scaling: with sigma = 2^-s read from the table (Run.scale), everything must be a function of A sigma (and h sigma) only
+    r = Run(ctx, "expmint", Fraction(10), geti2=False)
+    tag = "expmint (route of order 13)"
+    lv = r.leaves()
+    sig = r.scale()
+    if _aborted(ctx, f"{tag}: the tables can be evaluated", efn, r.ret):
+        pass
+    elif r.order is None or not lv or sig is None:
+        ctx.error(f"{tag}: tables", efn, f"no exponential / integral solve reached: {r.ret!r}"[:300])
+    else:
+        try:
+            sub = {"x": x / (h * sig)}
+            U2, V2 = (need(to_rat(t)).subs(sub) for t in r.pq.pos[:2])
+            P2, Q2 = (need(to_rat(t)).subs(sub) for t in (lv[0].pos[1], lv[0].pos[0]))
+            for nm, t in (("U", U2), ("V", V2), ("Q", Q2)):
+                ok = _symbols(t) <= {"x"}
+                verdict(ctx, ok, f"{tag}: {nm} is a function of A*2^-s only (every power B_k carries 2^(-k s))", r.pq.node, repr(t)[:300], [t])
+            _check_exp(ctx, f"{tag}: exp table", r.pq.node, U2, V2, 13)
+            Pn = P2 / sig  # P carries h 2^-s
+            ok = _symbols(Pn) <= {"x", "h"}
+            verdict(ctx, ok, f"{tag}: P is (h 2^-s) times a function of A*2^-s", lv[0].node, repr(Pn)[:300], [Pn])
+            _check_int(ctx, f"{tag}: integral table", lv[0].node, Pn, Q2, 13, 1, h)
+        except Unsupported as e:
+            ctx.error(f"{tag}: tables", efn, str(e)[:300])
     # the second integral, evaluated the way expmint reaches it (whatever the helper _geti2's parameters are called or ordered): on the
     # route of order m it must be solved from the [m/m] approximant of its series, scaled by h^2
     efn = ctx.src.func(EXPM, "expmint")
@@ -620,29 +654,26 @@ def r1_pade_tables(ctx):
         ok = len(lv) == 1 and isinstance(r.ret, tuple) and len(r.ret) == 3 and not is_unknown(r.ret[2])
         verdict(ctx, ok, "expmint (order 13): the second integral uses no Pade table (direct solve / power series)", efn,
                 repr(lv[1:] or r.ret)[:300], [r.ret])
-    # _ExpmPadeHelper_SS exp tables (block structure abstracted to the scalar homomorphism)
-    cls = "_ExpmPadeHelper_SS"
-    it = Interp(ctx, EXPM, hook=scalar_hook(), oracle=plain)
-    H = it.instantiate(cls, [x, x, F.const(1)])
-    if not isinstance(H, Obj):
-        raise AnchorError(f"{cls}: constructor")
-    for N, name in ((3, "pade3"), (5, "pade5"), (7, "pade7"), (9, "pade9")):
-        fn = ctx.src.func(EXPM, f"{cls}.{name}")
-        ret = _table(ctx, f"{cls}.{name}", fn, it.method(H, name, []), 2)
-        if ret is None:
+    # the exp tables of the state-space helper, as _expm_SS reaches them (block structure abstracted to the scalar homomorphism)
+    sfn = ctx.src.func(EXPM, "_expm_SS")
+    for N in (3, 5, 7, 9, 13):
+        r = Run(ctx, "_expm_SS", THETA[N] * (1 - EPS) if N < 13 else Fraction(10))
+        tag = f"_expm_SS (route of order {N})"
+        if _aborted(ctx, f"{tag}: the table can be evaluated", sfn, r.ret):
             continue
-        _check_exp(ctx, f"{cls}.{name}", fn, ret[0], ret[1], N)
-    fn = ctx.src.func(EXPM, f"{cls}.pade13_scaled")
-    ret = _table(ctx, f"{cls}.pade13_scaled", fn, it.method(H, "pade13_scaled", [F.sym("s")]), 2)
-    if ret is not None:
+        sig = r.scale()
+        if r.order is None or sig is None:
+            ctx.error(f"{tag}: table", sfn, f"no exponential solve reached: {r.ret!r}"[:300])
+            continue
         try:
-            sub = {"x": x * F.sym("2^s")}
-            U2, V2 = (need(t).subs(sub) for t in ret)
-            ok = not (U2.depends_on("2^s") or V2.depends_on("2^s") or U2.depends_on("s") or V2.depends_on("s"))
-            ctx.check(ok, f"{cls}.pade13_scaled: U, V are functions of A*2^-s only", fn)
-            _check_exp(ctx, f"{cls}.pade13_scaled", fn, U2, V2, 13)
+            U2, V2 = (need(to_rat(t)).subs({"x": x / sig}) for t in r.pq.pos[:2])
         except Unsupported as e:
-            ctx.error(f"{cls}.pade13_scaled", fn, str(e))
+            ctx.error(f"{tag}: table", sfn, str(e)[:300])
+            continue
+        if N == 13:
+            ok = _symbols(U2) <= {"x"} and _symbols(V2) <= {"x"}
+            verdict(ctx, ok, f"{tag}: U, V are functions of A*2^-s only", r.pq.node, repr(U2)[:200], [U2, V2])
+        _check_exp(ctx, f"{tag}: exp table", r.pq.node, U2, V2, r.order)
 
 
 # ------------------------------------------------------------------------------------------------------------ R2
@@ -715,6 +746,23 @@ class Run:
                 else:
                     self.order = _degree(V - U)
 
+    def scale(self):
+        """sigma such that the exp table of the route is the diagonal approximant in A sigma (sigma = 2^-s on the scaled order-13 route, 1
+        below it), read from the table itself: V + U = sum c_k (A sigma)^k with c_1 / c_0 = 1/2 for every diagonal Pade approximant of
+        exp.  None when the table was not evaluated."""
+        if self.order is None or self.pq is None:
+            return None
+        try:
+            U, V = need(to_rat(self.pq.pos[0])), need(to_rat(self.pq.pos[1]))
+            tot = V + U
+            co = F.coeffs_in(tot.n, "x")
+            if F.Rat(tot.d).depends_on("x") or 0 not in co or 1 not in co:
+                return None
+            sig = 2 * F.Rat(co[1]) / F.Rat(co[0])
+            return sig / self.h if self.q == "expmint" else sig
+        except Unsupported:
+            return None
+
     def leaves(self):
         """the linear solves of the integrals, in order: the first is the integral's own (solve(Q, P) of the route's table), any further
         one belongs to the second integral"""
@@ -746,8 +794,9 @@ class Run:
         for c in self.it.calls:
             if self.pq is not None and c.seq > self.pq.seq:
                 break
-            if c.name == "mf._ell" and len(c.pos) == 2:
-                out.append((c.pos[0], c.pos[1], c.node))
+            if c.name == "mf._ell" and len(c.pos) + len(c.kw) == 2 and set(c.kw) <= {"A", "m"}:
+                args = list(c.pos) + [c.kw[k_] for k_ in ("A", "m") if k_ in c.kw]
+                out.append((args[0], args[1], c.node))
         return out
 
 
@@ -780,9 +829,13 @@ def r2_thresholds(ctx):
             blocked = Run(ctx, q, THETA[m] * (1 - EPS), ell={m: 1})
             ok = bool(ells) and I.same_value(ells[-1][0], lo.A) and I.same_value(ells[-1][1], F.const(m)) \
                 and blocked.order is not None and blocked.order > m
-            verdict(ctx, ok, f"{q}: the order-{m} route is admitted by _ell(A, {m}) == 0 (a non-zero value sends the matrix on to a higher order)",
-                    ells[-1][2] if ells else where, {"last _ell consulted": repr(ells[-1][:2])[:200] if ells else None,
-                                                     "order used when it is 1": blocked.order}, [e_[:2] for e_ in ells[-1:]])
+            if not ells or blocked.order is None:
+                ctx.error(f"{q}: the order-{m} route is admitted by _ell(A, {m}) == 0 (a non-zero value sends the matrix on to a higher order)", where,
+                          f"no call of scipy's _ell seen on this route / the route with _ell = 1 could not be evaluated: {blocked.ret!r}"[:300])
+            else:
+                verdict(ctx, ok, f"{q}: the order-{m} route is admitted by _ell(A, {m}) == 0 (a non-zero value sends the matrix on to a higher order)",
+                        ells[-1][2] if ells else where, {"last _ell consulted": repr(ells[-1][:2])[:200] if ells else None,
+                                                         "order used when it is 1": blocked.order}, [e_[:2] for e_ in ells[-1:]])
             if q == "expmint":
                 # the order the route tells the second-integral helper is the order of the table that helper then uses
                 lo2 = Run(ctx, q, THETA[m] * (1 - EPS), follow_geti2=True)
@@ -825,16 +878,10 @@ def r2_thresholds(ctx):
         ok = r.order == 13 and tc is not None
         ctx.check(ok, f"{q}: a norm estimate above theta_9 uses the scaled order-13 table", r.pq.node if r.pq is not None else fn,
                   None if ok else {"order used": r.order})
-        ta = tc.ordered() if tc is not None else []
-        if len(ta) < 2:
-            ctx.error(f"{q}: scaling power", fn, "no call of the order-13 table method found")
-            continue
-        if q == "expmint":
-            ok = len(ta) >= 3 and I.same_value(ta[2], r.h)
-            verdict(ctx, ok, f"{q}: the order-13 table receives the step h (which it scales by 2^-s itself)", tc.node, repr(ta[2:])[:200], ta[2:3])
-        # the scaling power, decided on numbers: s = max(ceil(log2(eta_5 / theta_13)), 0) + ell(2^-s A, 13), eta_5 = min(eta_3, eta_4),
-        # eta_3 = max(d6, d8), eta_4 = max(d8, d10) (Al-Mohy & Higham, theta_13 = 4.25).  The estimates are placed so that the rounding
-        # (just below / above 4 theta_13), the clamp at 0 and the choice of the smaller of eta_3, eta_4 each show in the value.
+        # the scaling power, decided on numbers and read from the *table used* (not from how it is passed around): the exp table of this
+        # route must be the [13/13] approximant in A 2^-s with s = max(ceil(log2(eta_5 / theta_13)), 0) + ell(2^-s A, 13),
+        # eta_5 = min(eta_3, eta_4), eta_3 = max(d6, d8), eta_4 = max(d8, d10) (Al-Mohy & Higham, theta_13 = 4.25).  The estimates are placed
+        # so that the rounding (just below / above 4 theta_13), the clamp at 0 and the choice of the smaller of eta_3, eta_4 each show.
         big, tiny = Fraction(10), THETA[3] * (1 - EPS)
         for plabel, dv in (("every estimate is 10", {"d4": big, "d6": big, "d8": big, "d10": big}),
                            ("every estimate just below 4 theta_13", dict.fromkeys(("d4", "d6", "d8", "d10"), 4 * THETA[13] * (1 - EPS))),
@@ -845,23 +892,34 @@ def r2_thresholds(ctx):
             k = 0
             while THETA[13] * 2 ** k < eta5:
                 k += 1                                  # the least k >= 0 with eta_5 <= theta_13 2^k
-            title = f"{q}: s = max(ceil(log2(eta_5/theta_13)), 0) + ell(2^-s A, 13) with theta_13 = 4.25, eta_5 = min(max(d6, d8), max(d8, d10)): {plabel}"
+            title = f"{q}: the order-13 table is the approximant in A 2^-s, s = max(ceil(log2(eta_5/theta_13)), 0) + ell(2^-s A, 13) with theta_13 = 4.25, " \
+                    f"eta_5 = min(max(d6, d8), max(d8, d10)): {plabel}"
             rp = r if dv["d4"] == big and dv["d10"] == big else Run(ctx, q, dv)
-            tcp = rp.table_call()
             if _aborted(ctx, title, fn, rp.ret):
                 continue
-            tap = tcp.ordered() if tcp is not None else []
-            if rp.order != 13 or len(tap) < 2:
+            got = rp.scale()
+            if rp.order != 13 or got is None:
                 ctx.error(title, fn, f"the order-13 table is not reached in this regime (order {rp.order}): {rp.ret!r}"[:300])
                 continue
-            s_got = tap[1]           # (self, s[, h])
-            want = rp.it.expr("S0 + mf._ell(2 ** -S0 * X, 13)", {"S0": F.const(k), "X": rp.A})
-            ok = I.same_value(s_got, want)
-            if not ok and isinstance(s_got, F.Rat) and not is_unknown(s_got) and \
-                    any(I.atoms_named(s_got, "call:" + nm_) for nm_ in list(ROUNDERS) + ["np.log2", "math.log2", "np.log", "math.log", "math.frexp", "np.frexp"]):
-                ctx.error(title, tcp.node, f"the scaling power is computed in a way the rule cannot evaluate to a number: {s_got!r}"[:300])
+            want = rp.it.expr("2 ** -(S0 + mf._ell(2 ** -S0 * X, 13))", {"S0": F.const(k), "X": rp.A})
+            ok = I.same_value(got, want)
+            if not ok and isinstance(got, F.Rat) and not is_unknown(got) and \
+                    any(I.atoms_named(got, "call:" + nm_) for nm_ in list(ROUNDERS) + ["np.log2", "math.log2", "np.log", "math.log", "math.frexp", "np.frexp"]):
+                ctx.error(title, rp.pq.node, f"the scaling power is computed in a way the rule cannot evaluate to a number: {got!r}"[:300])
                 continue
-            verdict(ctx, ok, title, tcp.node, {"got": repr(s_got)[:300], "want": repr(want)[:300]}, [s_got, want])
+            verdict(ctx, ok, title, rp.pq.node, {"2^-s read from the table": repr(got)[:300], "want": repr(want)[:300]}, [got, want])
+            if q == "expmint" and dv["d4"] == big and dv["d10"] == big:
+                # the first integral's table carries the step: before the squarings int_0^(h 2^-s) e^{At} dt = h 2^-s + O(A)
+                lv = rp.leaves()
+                title = f"{q}: the order-13 integral table is computed for the step h 2^-s (its value at A = 0)"
+                try:
+                    Pt, Qt = (need(to_rat(v_)) for v_ in (lv[0].pos[1], lv[0].pos[0])) if lv else (None, None)
+                    i0_ = None if Pt is None else (Pt / Qt).subs({"x": F.const(0)})
+                except Unsupported as e:
+                    ctx.error(title, fn, str(e)[:300])
+                    continue
+                okh = i0_ is not None and I.same_value(i0_, rp.h * got)
+                verdict(ctx, okh, title, lv[0].node if lv else fn, {"P/Q at A = 0": repr(i0_)[:200], "want": repr(rp.h * got)[:200]}, [i0_, got])
     # getEPQ: switch variable, switch constant, arguments
     fn = ctx.src.func(EXPM, "getEPQ")
     A, h, order, B, half = (F.sym(n_) for n_ in ("A", "h", "order", "B", "half"))
@@ -976,12 +1034,13 @@ def r3_squaring(ctx):
         ctx.error("expmint: order-13 route", fn, f"expected one squaring loop and (E, I, I2): loops={len(loops)} ret={r.ret!r}"[:300])
     else:
         lp = loops[0]
-        ta = tc.ordered()
-        s = ta[1] if len(ta) > 1 else None
+        # (the scaling is read from the table the route used -- the [13/13] approximant in A 2^-s -- not from how s is passed around)
+        sig = r.scale()
         trip = _strip_int(trip_count(lp))
-        ok = trip is not None and I.same_value(trip, s)
-        verdict(ctx, ok, "expmint: the squaring loop runs s times, s being the scaling power given to the order-13 table", lp.node,
-                {"trip count": repr(trip)[:200], "s": repr(s)[:200]}, [trip, s])
+        undo = r.it.expr("2 ** -T", {"T": trip}) if isinstance(trip, F.Rat) and not is_unknown(trip) else None
+        ok = trip is not None and sig is not None and I.same_value(undo, sig)
+        verdict(ctx, ok, "expmint: the squaring loop runs s times, s being the scaling power of the order-13 table (the approximant in A 2^-s)", lp.node,
+                {"trip count": repr(trip)[:200], "2^-s of the table": repr(sig)[:200]}, [trip, sig])
         suffix = f"@out{lp.k}"
         names = [I.sym_name(v) if isinstance(v, F.Rat) else None for v in r.ret[:2]]
         carried = [n_[:-len(suffix)] if n_ and n_.endswith(suffix) else None for n_ in names]
@@ -1088,11 +1147,11 @@ def r3_squaring(ctx):
     else:
         lp = r.it.loops[0]
         trip = _strip_int(trip_count(lp))
-        ta = tc.ordered()
-        s = ta[1] if len(ta) > 1 else None
-        ok = trip is not None and I.same_value(trip, s)
-        verdict(ctx, ok, "_expm_SS: the squaring loop runs s times, s being the scaling power given to the order-13 table", lp.node,
-                {"trip count": repr(trip)[:200], "s": repr(s)[:200]}, [trip, s])
+        sig = r.scale()
+        undo = r.it.expr("2 ** -T", {"T": trip}) if isinstance(trip, F.Rat) and not is_unknown(trip) else None
+        ok = trip is not None and sig is not None and I.same_value(undo, sig)
+        verdict(ctx, ok, "_expm_SS: the squaring loop runs s times, s being the scaling power of the order-13 table (the approximant in A 2^-s)", lp.node,
+                {"trip count": repr(trip)[:200], "2^-s of the table": repr(sig)[:200]}, [trip, sig])
         nX = I.sym_name(r.ret) or ""
         suffix = f"@out{lp.k}"
         nX = nX[:-len(suffix)] if nX.endswith(suffix) else None
